@@ -12,6 +12,7 @@ import (
 	"github.com/elliotchance/gedcom/v39"
 	"pgregory.net/rapid"
 
+	"verif/internal/gen"
 	"verif/internal/harness"
 	"verif/internal/ref"
 )
@@ -437,7 +438,147 @@ func TestCheckNearMisses(t *testing.T) {
 	_ = time.January
 }
 
+// ---- whatever the parser accepts must survive printing -------------------------------------
+
+type soupCase struct {
+	S gen.Str `json:"s"`
+}
+
+var soupTokens = []string{"abt", "Abt.", "about", "c.", "ca", "cca.", "circa", "aft", "AFT.", "after", "bef", "Bef.", "before", "bet", "Bet.", "between", "from",
+	"and", "to", "-", "Jan", "feb", "MAR", "april", "May", "jun.", "Sept", "sep", "December", "Foo", "0", "1", "03", "9", "10", "28", "29", "30", "31", "32",
+	"99", "100", "1582", "1900", "1943", "2000", "9999", "10000", "0000", "(", ")", ".", ",", "/", "BC", "B.C.", "est", "?", "~"}
+
+// sameDate compares what the statement calls "the same start and end dates".
+func sameDate(a, b gedcom.Date) bool {
+	return a.Day == b.Day && a.Month == b.Month && a.Year == b.Year && a.Constraint == b.Constraint
+}
+
+// checkSoup: a string the parser reports as valid prints as a spelling that parses back to
+// the same start and end dates and prints the same again. Nothing is required of strings
+// that are reported as invalid.
+func checkSoup(c soupCase) (fl *harness.Failure, valid bool) {
+	defer func() {
+		if p := recover(); p != nil {
+			fl = harness.Failf("panic", "parsing or printing %q panics: %v", string(c.S), p)
+		}
+	}()
+	r := gedcom.NewDateRangeWithString(string(c.S))
+	if !r.IsValid() {
+		return nil, false
+	}
+	s1 := r.String()
+	back := gedcom.NewDateRangeWithString(s1)
+	if !back.IsValid() {
+		return harness.Failf("accepted-string:printed-form-invalid", "%q is valid (%s .. %s) and prints as %q, which is reported as invalid", string(c.S), show(r.StartDate()), show(r.EndDate()), s1), true
+	}
+	if !sameDate(back.StartDate(), r.StartDate()) || !sameDate(back.EndDate(), r.EndDate()) {
+		return harness.Failf("accepted-string:print-parse-roundtrip", "%q is valid (%s .. %s) and prints as %q, which parses to %s .. %s", string(c.S), show(r.StartDate()), show(r.EndDate()), s1, show(back.StartDate()), show(back.EndDate())), true
+	}
+	if s2 := back.String(); s2 != s1 {
+		return harness.Failf("accepted-string:canonical-not-fixed", "%q prints as %q, which prints as %q", string(c.S), s1, s2), true
+	}
+	return nil, true
+}
+
+func TestCheckAcceptedStrings(t *testing.T) {
+	s := harness.NewSub("accepted-strings-survive-printing",
+		"token soups over the vocabulary of DATE values (keywords, range words, month words incl. an unknown one, numbers 0..10000 with and without leading zeros, punctuation, BC, est, ?) of 1..8 tokens joined by single blanks or nothing (a third), and documented sentences with one or two token mutations (replace, insert, delete, duplicate, swap; two thirds), plus byte mutations: whenever the parser reports the string as valid, its printed form must be valid, parse to the same day/month/year/constraint at both ends and print identically again; strings reported as invalid are only counted; non-trivial = reported as valid and a mutated sentence, or a soup of >= 4 tokens or with a range word")
+	s.Rapid(t, harness.Share(harness.Pick(200000, 20000000)), 41, func(rt *rapid.T) {
+		var str string
+		n, rangeWord := 0, false
+		if rapid.IntRange(0, 2).Draw(rt, "fromSentence") > 0 {
+			// a documented sentence with one or two token mutations: close to the grammar, so
+			// that a good part is still accepted
+			dc := dateCase{Left: genForm(rt, "l")}
+			if rapid.IntRange(0, 2).Draw(rt, "range") == 0 {
+				r := genForm(rt, "r")
+				dc.Right = &r
+				dc.Between = rapid.SampledFrom(between).Draw(rt, "between")
+				dc.And = rapid.SampledFrom(and).Draw(rt, "and")
+				rangeWord = true
+			}
+			words := strings.Fields(dc.sentence())
+			for k := rapid.IntRange(1, 2).Draw(rt, "nmut"); k > 0 && len(words) > 0; k-- {
+				i := rapid.IntRange(0, len(words)-1).Draw(rt, "pos")
+				tok := rapid.SampledFrom(soupTokens).Draw(rt, "tok")
+				switch rapid.IntRange(0, 4).Draw(rt, "op") {
+				case 0:
+					words[i] = tok
+				case 1:
+					words = append(words[:i], append([]string{tok}, words[i:]...)...)
+				case 2:
+					words = append(words[:i], words[i+1:]...)
+				case 3:
+					words = append(words[:i], append([]string{words[i]}, words[i:]...)...)
+				default:
+					j := rapid.IntRange(0, len(words)-1).Draw(rt, "with")
+					words[i], words[j] = words[j], words[i]
+				}
+			}
+			n = 4 // mutated sentences count as non-trivial whenever they are accepted
+			str = strings.Join(words, " ")
+		} else {
+			n = rapid.IntRange(1, 8).Draw(rt, "n")
+			var b strings.Builder
+			for i := 0; i < n; i++ {
+				tok := rapid.SampledFrom(soupTokens).Draw(rt, "tok")
+				switch tok {
+				case "bet", "Bet.", "between", "from", "and", "to", "-":
+					rangeWord = true
+				}
+				if i > 0 && rapid.IntRange(0, 9).Draw(rt, "glue") > 0 {
+					b.WriteByte(' ')
+				}
+				b.WriteString(tok)
+			}
+			str = b.String()
+		}
+		if rapid.IntRange(0, 9).Draw(rt, "mutate") == 0 && len(str) > 0 {
+			i := rapid.IntRange(0, len(str)-1).Draw(rt, "at")
+			str = str[:i] + string(rune(rapid.IntRange(32, 126).Draw(rt, "byte"))) + str[i+1:]
+		}
+		c := soupCase{S: gen.Str(str)}
+		fl, valid := checkSoup(c)
+		cls := "reported-invalid"
+		if valid {
+			cls = "reported-valid"
+		}
+		nt := valid && (n >= 4 || rangeWord)
+		s.Eval(harness.JSON(c), nt, cls)
+		if nt {
+			s.MaybeSample(c)
+		}
+		if fl != nil && s.Report(c, fl) {
+			rt.Fatalf("%s: %s", fl.Sig, fl.Msg)
+		}
+	})
+}
+
+// FuzzDateRoundTrip is the coverage-guided version of the same oracle (thorough tier).
+func FuzzDateRoundTrip(f *testing.F) {
+	for _, seed := range []string{"3 Sep 1943", "Abt. Oct 1943", "Bet. 3 Sep 1943 and Bef. Oct 1943", "from 1900 to 1910", "bef. 31 dec 9999", "(phrase)", "0", "29 Feb 1900", "Between 1 Jan 0001 - 2000"} {
+		f.Add(seed)
+	}
+	f.Fuzz(func(t *testing.T, str string) {
+		if len(str) > 200 {
+			return
+		}
+		c := soupCase{S: gen.Str(str)}
+		if fl, _ := checkSoup(c); fl != nil && harness.FuzzFail("accepted-strings-survive-printing", c, fl) {
+			t.Fatalf("%s: %s", fl.Sig, fl.Msg)
+		}
+	})
+}
+
 func init() {
+	harness.RegisterReplay("accepted-strings-survive-printing", func(raw json.RawMessage) *harness.Failure {
+		var c soupCase
+		if err := json.Unmarshal(raw, &c); err != nil {
+			return harness.Failf("bad-replay", "%v", err)
+		}
+		fl, _ := checkSoup(c)
+		return fl
+	})
 	harness.Assume("the meaning of every sentence is fixed by the generator (no oracle-side parsing)",
 		"canonical spelling as documented on Date.String / DateNode.String: 'Abt.|Bef.|Aft.' + 'D Mon Y', ranges as 'Bet. X and Y' when the two ends differ",
 		"left out as not clearly documented: years written with leading zeros, more than one leading zero on the day, more than 4 spaces in a row (CleanSpace collapses up to 4)",
